@@ -25,7 +25,9 @@ def declare(E):
     # ---- modular exponentiation: every base must be a validated group element
     E.contract("builtins.pow", argnames=["a", "b", "c"], returns="int", ensures=["implies(c >= 1, 0 <= result and result < c)"])
     E.contract(T + "_set_K_H", returns="none", ghost={"derived": "True"})
-    E.contract(T + "_verify_key", returns="none", raises={"SSHException": "True"}, ghost={"verified": "True"})
+    # (C06) the signature is checked over self.H, so the exchange hash of THIS exchange must have been stored first
+    E.contract(T + "_verify_key", returns="none", raises={"SSHException": "True"}, ghost={"verified": "True"},
+               requires={"exchange_hash_of_this_exchange_stored_before_the_signature_check": "ghost('derived')"})
     # (C09) _activate_outbound ends by expecting NEWKEYS; _expect_packet registers the next key-exchange packet
     E.contract(T + "_activate_outbound", returns="none", raises=dict(RA), ghost={"activated": "True", "expecting": "True"})
     E.declare_ghost(expecting="bool")
